@@ -14,8 +14,20 @@
 //                           the thread for ms: events so far, and whether it is blocked, spinning or gone
 //         E:cn|fin|rst      end of connection: TLS close_notify + FIN | FIN without alert | RST
 //         S                 the GUI clears the `sync` flag
+//         GL | GW | GU | GX  the GUI thread's part, step by step: a helper thread owning a clone of the shared
+//                           client executes   GL  lock the client mutex (keeps the guard)
+//                                             GW  try_write() a pointer event through the held guard
+//                                             GU  drop the guard
+//                                             GX  shutdown() through the held guard (main_gui_loop's last statement:
+//                                                 client disconnect ultimatum + TLS close_notify)
+//                           commands are queued; the step waits until the command has completed, or until it is
+//                           clear that it cannot complete now (>= 300 ms and the mutex is held by somebody else)
 //         J:ms              how long the final observation waits for the thread to finish (default 3000)
-// out  : i:<events>:<exited|blocked|spin|?> ... end:<exited|blocked|spin|?|late> ev=<id.id...> rel=<0|1>
+// out  : i:<events>:<exited|blocked|spin|?> ... end:<exited|blocked|spin|?|late> ev=<id.id...> rel=<0|1> in=<n|*>
+//        g:ok | g:wait  after every G step: the command completed | is still waiting for the mutex (or queued behind
+//        a command that is); in=<n>[+u][+c] = client PDUs the server has seen since the thread started: n input PDUs,
+//        u = a disconnect ultimatum, c = TLS close_notify (`*` when the count is not determined by the script: timed
+//        writer `gw`, or a thread started before the end of the activation sequence, whose reads answer the server)
 //        `?` = CPU share between the thresholds, `late` = finished only during the 5 s grace after the
 //        deadline: inconclusive; the scenario is re-run (at most 2 runs) and the last result is reported
 //        as it is -- never turned into a pass.   # diagnostics after ` #`
@@ -52,7 +64,7 @@ fn thread_cpu_ns(pt: libc::pthread_t) -> Option<u64> {
     }
 }
 
-struct Server { tls: Option<TlsStream<TcpStream>> }
+struct Server { tls: Option<TlsStream<TcpStream>>, seen: Vec<u8>, eof: bool }
 
 impl Server {
     /// read and discard whatever the client has written so far
@@ -61,7 +73,11 @@ impl Server {
             let _ = t.get_ref().set_read_timeout(Some(Duration::from_millis(2)));
             let mut b = [0u8; 4096];
             loop {
-                match t.read(&mut b) { Ok(n) if n > 0 => continue, _ => break }
+                match t.read(&mut b) {
+                    Ok(n) if n > 0 => { self.seen.extend_from_slice(&b[..n]); continue }
+                    Ok(_) => { self.eof = true; break }       // close_notify (or FIN) from the client
+                    _ => break
+                }
             }
         }
     }
@@ -144,7 +160,7 @@ fn run(args: &[&str]) -> String {
     tcp.set_nodelay(true).unwrap();
     let fd = tcp.as_raw_fd();
     let link = match Link::new(Stream::Raw(tcp)).start_ssl(false) { Ok(l) => l, Err(_) => return "tls-failed".to_string() };
-    let mut server = Server { tls: srv.join().unwrap() };
+    let mut server = Server { tls: srv.join().unwrap(), seen: vec![], eof: false };
     if server.tls.is_none() { return "tls-failed".to_string(); }
     let x = x224::Client::verif_new(tpkt::Client::new(link), x224::Protocols::ProtocolSSL);
     let m = mcs::Client::verif_connected(x, 1004, 1003);
@@ -179,6 +195,33 @@ fn run(args: &[&str]) -> String {
         }))
     } else { None };
 
+    // --- the GUI's part, scripted (G steps): lock / try_write / unlock / shutdown executed one by one by a helper thread
+    let scripted = args[4..].iter().any(|s| s.starts_with('G'));
+    let (gtx, grx) = mpsc::channel::<u8>();
+    let (atx, arx) = mpsc::channel::<u8>();
+    let helper = if scripted {
+        let c = Arc::clone(&client);
+        Some(thread::spawn(move || {
+            let mut guard = None;
+            let mut k: u16 = 0;
+            for cmd in grx {
+                match cmd {
+                    b'L' => { if guard.is_none() { guard = c.lock().ok(); } }
+                    b'W' => { if let Some(g) = guard.as_mut() {
+                        k += 1;
+                        let _ = g.try_write(RdpEvent::Pointer(PointerEvent { x: k, y: 2, button: PointerButton::None, down: false })); } }
+                    b'U' => { guard = None; }
+                    b'X' => { if let Some(g) = guard.as_mut() { let _ = g.shutdown(); } }
+                    _ => break,
+                }
+                if atx.send(cmd).is_err() { break; }
+            }
+            drop(guard);
+        }))
+    } else { drop(grx); drop(atx); None };
+    let mut gpending: u32 = 0;
+    server.seen.clear(); server.eof = false;
+
     let mut events: Vec<u16> = vec![];
     let mut join_deadline_ms: u64 = 3000;
     let mut out: Vec<String> = vec![];
@@ -188,6 +231,7 @@ fn run(args: &[&str]) -> String {
         let mut it = step.splitn(2, ':');
         let kind = it.next().unwrap();
         let rest = it.next().unwrap_or("");
+        while gpending > 0 { match arx.try_recv() { Ok(_) => gpending -= 1, Err(_) => break } }
         match kind {
             "W" => {
                 let mut rec = vec![];
@@ -216,6 +260,33 @@ fn run(args: &[&str]) -> String {
             }
             "E" => server.end(rest),
             "S" => sync.store(false, Ordering::Relaxed),
+            "GL" | "GW" | "GU" | "GX" => {
+                let _ = gtx.send(kind.as_bytes()[1]);
+                gpending += 1;
+                // completed = every command sent so far was acknowledged.  Not completed = the helper is blocked in
+                // lock(): decided only when, after 300 ms, somebody else demonstrably holds the mutex (a slow, starved
+                // helper on a free mutex is waited for, up to 5 s)
+                let t0 = Instant::now();
+                loop {
+                    match arx.recv_timeout(Duration::from_millis(20)) {
+                        Ok(_) => { gpending -= 1; if gpending == 0 { break; } }
+                        Err(mpsc::RecvTimeoutError::Timeout) => {
+                            if t0.elapsed() > Duration::from_millis(5000) { break; }
+                            if t0.elapsed() > Duration::from_millis(300) {
+                                let held = match client.try_lock() { Ok(_) => false, Err(std::sync::TryLockError::WouldBlock) => true, Err(_) => false };
+                                if held {
+                                    // the holder may be the helper itself, its acknowledgement on the way
+                                    if let Ok(_) = arx.recv_timeout(Duration::from_millis(40)) { gpending -= 1; if gpending == 0 { break; } else { continue; } }
+                                    break;
+                                }
+                            }
+                        }
+                        Err(_) => break,
+                    }
+                }
+                out.push(format!("g:{}", if gpending == 0 { "ok" } else { "wait" }));
+                diag.push(format!("g{}ms", t0.elapsed().as_millis()));
+            }
             "J" => join_deadline_ms = rest.parse().unwrap(),
             _ => return "bad-step".to_string(),
         }
@@ -240,6 +311,8 @@ fn run(args: &[&str]) -> String {
     let finished = finished && end != "late";
     pump(&mut events);
     diag.push(format!("endcpu={:?} waited={}ms", pct, waited.as_millis()));
+    server.drain();
+    let (seen, seen_eof) = (server.seen.clone(), server.eof);   // before the clean-up below closes anything
     // --- clean up: stop the writer, then whatever is left of the thread
     gstop.store(true, Ordering::Relaxed);
     let mut rel = 0;
@@ -251,9 +324,16 @@ fn run(args: &[&str]) -> String {
         while !handle.is_finished() && t1.elapsed() < Duration::from_millis(2000) { thread::sleep(Duration::from_millis(5)); }
     }
     if let Some(w) = writer { let _ = w.join(); }
+    drop(gtx);          // the helper leaves its command loop, drops its guard (if any) and its clone of the client
+    let mut helper_left = false;
+    if let Some(h) = helper {
+        let t1 = Instant::now();
+        while !h.is_finished() && t1.elapsed() < Duration::from_millis(3000) { thread::sleep(Duration::from_millis(2)); }
+        if h.is_finished() { let _ = h.join(); } else { helper_left = true; std::mem::forget(h); diag.push("helper-leaked".to_string()); }
+    }
     if handle.is_finished() {
         let _ = handle.join();
-        if finished && Arc::strong_count(&client) == 1 && client.lock().is_ok() { rel = 1; }
+        if finished && !helper_left && Arc::strong_count(&client) == 1 && client.lock().is_ok() { rel = 1; }
     } else {
         std::mem::forget(handle); // leaked: could not be stopped
         diag.push("leaked".to_string());
@@ -263,5 +343,18 @@ fn run(args: &[&str]) -> String {
     out.push(format!("end:{}", end));
     out.push(format!("ev={}", if ids.is_empty() { "-".to_string() } else { ids.join(".") }));
     out.push(format!("rel={}", rel));
+    // client PDUs seen by the server since the thread started (TPKT frames: 0x64 = MCS send data request carrying an
+    // input PDU, 0x21 = disconnect provider ultimatum)
+    if gw_n > 0 || pre.len() < 5 { out.push("in=*".to_string()); } else {
+        let (mut n, mut u, mut i) = (0usize, false, 0usize);
+        while i + 4 <= seen.len() && seen[i] == 3 {
+            let l = ((seen[i + 2] as usize) << 8) | seen[i + 3] as usize;
+            if l < 8 || i + l > seen.len() { break; }
+            match seen[i + 7] & 0xfc { 0x64 => n += 1, 0x20 => u = true, _ => {} }
+            i += l;
+        }
+        if i != seen.len() { diag.push(format!("in-unparsed={}", seen.len() - i)); }
+        out.push(format!("in={}{}{}", n, if u { "+u" } else { "" }, if seen_eof { "+c" } else { "" }));
+    }
     format!("{} # {}", out.join(" "), diag.join(" "))
 }
